@@ -253,6 +253,8 @@ TInt == <<3, 91>>                                   \* int
 Code0 == <<2, 0, 0, 0, 0>>                          \* {}
 Code1 == <<2, 0, 0, 0, 23,  5, 0, 3, 108,  5, 1, 3, 108,  5, 2, 2, 0, 0, 0, 8,  3, 23,  5, 61, 3, 109,  3, 66>>
                                                     \* { parameter unit ; storage unit ; code { CDR ; NIL operation ; PAIR } }
+Code1R == <<2, 0, 0, 0, 23,  5, 1, 3, 108,  5, 0, 3, 108,  5, 2, 2, 0, 0, 0, 8,  3, 23,  5, 61, 3, 109,  3, 66>>
+                                                    \* { storage unit ; parameter unit ; code { CDR ; NIL operation ; PAIR } }: sections in another order
 Values == {MichUnit, VInt1, VPair, VIntM64}
 EpSave == <<115, 97, 118, 101>>                     \* save
 EpLong == <<97, 98, 99, 100, 101, 102, 103, 104, 105, 106, 107, 108, 109, 110, 111, 112, 113, 114, 115, 116, 117, 118, 119, 120, 121, 122, 48, 49, 50, 51, 52>>  \* 31 characters
@@ -272,7 +274,7 @@ TxContents == {<<"transaction">> \o h \o <<IntTab[a], d, p>> : h \in TxHdrs, a \
 MiscContents ==
        {<<"reveal">> \o h \o <<Pk(c), <<"none">>>> : h \in {H1, H2}, c \in 0..3}
   \cup {<<"reveal">> \o h \o <<Pk(3), <<"some", Proof96>>>> : h \in {H1, H2}}
-  \cup {<<"origination">> \o H1 \o <<IntTab[a], dl, code, st>> : a \in AmtIdx, dl \in OptPkhs, code \in {Code0, Code1}, st \in {MichUnit, VInt1}}
+  \cup {<<"origination">> \o H1 \o <<IntTab[a], dl, code, st>> : a \in AmtIdx, dl \in OptPkhs, code \in {Code0, Code1, Code1R}, st \in {MichUnit, VInt1}}
   \cup {<<"delegation">> \o h \o <<dl>> : h \in {H1, H2}, dl \in OptPkhs}
   \cup {<<"register_global_constant">> \o h \o <<v>> : h \in {H1, H2}, v \in Values}
   \cup {<<"transfer_ticket">> \o H1 \o <<ct[1], ct[2], tk, IntTab[a], d, e>> :
